@@ -197,10 +197,10 @@ RECORD_TEXT_FUNCS = ("Kconfig.write_min_config", "Kconfig._min_config_contents",
 
 
 def r10_5(ctx):
-    """R10.5 emitted config text is cut into records on "\n" only: no function that post-processes the emitted
+    """R10.5 emitted config text is cut into records on the newline only: no function that post-processes the emitted
     text applies str.splitlines() (it also cuts on \x0b \x0c \x1c-\x1e \x85 U+2028/9, which `escape()` leaves inside
     string values: the record after the cut is dropped or mangled and the reloaded value differs); the =n normaliser
-    splits on "\n" and joins with "\n"."""
+    splits on the newline and joins with it."""
     repo = ctx.repo
     for short in RECORD_TEXT_FUNCS:
         try:
